@@ -5,6 +5,7 @@
 //  (3) flipping a non-owned bit never changes a field's decoded text/formatting,
 //  (4) encoding a value changes only owned bits (and equals the single-field encoding).
 #include <errno.h>
+#include <algorithm>
 #include <functional>
 #include <sstream>
 #include "lib/ebus/data.h"
@@ -30,6 +31,7 @@ struct FT {
   bool ign, var;
   char kind;        // signature shape letter
   vector<string> vals;  // 3 valid values in canonical text form (bit types: generated)
+  bool ext = false;     // extended alphabet: quick only in sequences of length <= 2, thorough up to 3
 };
 static vector<FT> g_alpha;
 // The statement does not say whether the 6-bit time type TTH is a bit field (may share its byte, owns
@@ -60,8 +62,8 @@ static void initAlphabet() {
   g_alpha.push_back(FT{"IGN:1", 1, false, 0, 0, true, false, 'I', {}});
   g_alpha.push_back(FT{"IGN:2", 2, false, 0, 0, true, false, 'I', {}});
   full("STR:2", 2, 'S', {"ab", "YZ", "q1"});
-  full("HEX:2", 2, 'S', {"00 00", "ff ff", "a5 5a"});
-  full("BDA:3", 3, 'D', {"01.01.2000", "31.12.2099", "15.06.2050"});
+  full("HEX:2", 2, 'X', {"00 00", "ff ff", "a5 5a"});
+  full("BDA:3", 3, 'Y', {"01.01.2000", "31.12.2099", "-.-.2005"});
   full("BTI", 3, 'D', {"00:00:00", "23:59:59", "12:34:56"});
   full("TTM", 1, 'D', {"00:00", "23:50", "12:00"});
   full("HDY", 1, 'L', {"Mon", "Sun", "Thu"});
@@ -72,6 +74,14 @@ static void initAlphabet() {
   full("EXP", 4, 'F', {"3.14159", "-1234.56", "0.001"});
   full("EXR", 4, 'F', {"0.25", "3.14159", "-1234.56"});
   full("EXP/10", 4, 'F', {"3.1415901", "-0.2500000", "0.0010000"});
+  // extended alphabet (types whose printing has own code paths): minutes, date+time, day count, a value list
+  // ("type/k=name+k=name": bit flips reach unlisted values), a date without weekday in binary
+  full("MIN", 2, 'D', {"00:01", "23:59", "12:34"});
+  full("DTM", 4, 'D', {"01.01.2009 00:01", "31.12.2099 23:59", "15.06.2050 12:34"});
+  full("DAY", 2, 'D', {"01.01.2000", "31.12.2050", "15.06.2020"});
+  full("HDA:3", 3, 'Y', {"01.01.2000", "31.12.2099", "-.-.2012"});
+  full("UCH/0=off+1=on+254=max", 1, 'L', {"off", "max", "on"});
+  for (size_t k = g_alpha.size() - 5; k < g_alpha.size(); k++) g_alpha[k].ext = true;
   // truncated time in 6 bits of one byte (see above)
   g_subByte = (int)g_alpha.size();
   g_alpha.push_back(FT{"TTH", 1, false, 0, 0, false, false, 'T', {"00:00", "23:00", "10:30"}});
@@ -103,7 +113,11 @@ static const DataField* createFields(const Seq& s, const vector<string>* names =
     string ty = g_alpha[s[i].t].type;
     size_t slash = ty.find('/');
     rows[i]["type"] = ty.substr(0, slash);
-    if (slash != string::npos) rows[i]["divisor"] = ty.substr(slash + 1);
+    if (slash != string::npos) {
+      string arg = ty.substr(slash + 1);
+      if (arg.find('=') != string::npos) { std::replace(arg.begin(), arg.end(), '+', ';'); rows[i]["values"] = arg; }
+      else rows[i]["divisor"] = arg;
+    }
   }
   const DataField* f = nullptr;
   string err;
@@ -182,13 +196,14 @@ struct Bitset {  // owned bits of one part: byte index -> mask; var fields own e
 
 struct Finding { string rule, detail, ctx; };
 
-static const OutputFormat FORMATS[] = {OF_NONE, OF_NAMES, OF_JSON | OF_NAMES, OF_NUMERIC, OF_JSON | OF_NAMES | OF_VALUENAME};
-static const char* FORMAT_NAMES[] = {"plain", "names", "json", "numeric", "json-valuename"};
+static const OutputFormat FORMATS[] = {OF_NONE, OF_NAMES, OF_JSON | OF_NAMES, OF_NUMERIC, OF_JSON | OF_NAMES | OF_VALUENAME, OF_JSON};
+static const char* FORMAT_NAMES[] = {"plain", "names", "json", "numeric", "json-valuename", "json-nonames"};
 
 class SeqCheck {
  public:
   SeqCheck(const Seq& s, bool deep, bool light = false) : seq(s), n(s.size()), deep(deep), nv(s.size() >= 4 ? 2 : 3), light(light) {}
   bool light;  // only the cheap structural oracles (lengths of the uniform encodings, barrier rule)
+  bool refLayout = false;  // light mode: additionally whole decode == composition, positions from the field sizes
   int nv;  // values per field used for the combinations (2 for the longest sequences)
   ~SeqCheck() { delete whole; for (auto a : alone) delete a; }
   vector<Finding> out;
@@ -217,9 +232,36 @@ class SeqCheck {
 
   bool run() {
     whole = createFields(seq);
-    if (!whole) { R.count("definitions_refused"); return false; }
+    if (!whole) {
+      // every sequence of the enumerated universe is valid by the documented definition format
+      R.count("definitions_refused");
+      fail("config-rejected", "valid field definition sequence refused by DataField::create");
+      return false;
+    }
     R.count("definitions");
-    if (light) { checkLight(); checkBarriers(); return true; }
+    if (light) {
+      checkLight(); checkBarriers();
+      if (refLayout) {
+        // long sequences of full-byte fields with at most isolated sub-byte fields: positions follow from the sizes
+        owned.assign(n, Bitset());
+        size_t offM = 0, offS = 0;
+        for (size_t i = 0; i < n; i++) {
+          Seq one = {seq[i]};
+          vector<string> nm = {"f" + std::to_string(i)};
+          alone.push_back(ft(i).ign ? nullptr : createFields(one, &nm));
+          size_t& off = seq[i].part == 'm' ? offM : offS;
+          for (int b = 0; b < ft(i).bytes; b++) owned[i].mask[off + b] = 0xff;
+          off += ft(i).bytes;
+        }
+        for (int u = 0; u < nv; u++) {
+          vector<int> c(n, 0);
+          for (size_t i = 0; i < n; i++) if (!ft(i).ign) c[i] = u;
+          Enc e = encode(whole, seq, valuesFor(c));
+          if (e.res == RESULT_OK) checkDecode(e.m, e.s, "values");
+        }
+      }
+      return true;
+    }
     for (size_t i = 0; i < n; i++) {
       Seq one = {seq[i]};
       vector<string> nm = {"f" + std::to_string(i)};
@@ -549,8 +591,11 @@ class SeqCheck {
         std::ostringstream one;  // a fresh stream: formatting state must not leak between fields
         result_t r;
         errno = 0;
-        if (part == 'm') { MasterSymbolString ms; loadM(&ms, own); r = alone[i]->read(ms, 0, sep, nullptr, -1, fmt, -1, &one); }
-        else { SlaveSymbolString ss; loadS(&ss, own); r = alone[i]->read(ss, 0, sep, nullptr, -1, fmt, -1, &one); }
+        // JSON without names: the key is the index of the field among the non-ignored fields of the definition
+        ssize_t key = -1;
+        if ((fmt & OF_JSON) && !(fmt & OF_NAMES) && n > 1) { key = 0; for (size_t j = 0; j < i; j++) if (!ft(j).ign) key++; }
+        if (part == 'm') { MasterSymbolString ms; loadM(&ms, own); r = alone[i]->read(ms, 0, sep, nullptr, -1, fmt, key, &one); }
+        else { SlaveSymbolString ss; loadS(&ss, own); r = alone[i]->read(ss, 0, sep, nullptr, -1, fmt, key, &one); }
         R.transitions++;
         if (r < RESULT_OK) return Dec{r, ""};
         os << one.str();
@@ -673,18 +718,35 @@ class SeqCheck {
   }
 };
 
+// Every sequence starts from the pristine derived-type cache, so that a verdict never depends on the sequences
+// checked before in the same process (and the fresh-process replay of a single case sees the same thing).
+static std::set<string> g_baseKeys;
+static void resetTypeCache() {
+  DataTypeList* L = DataTypeList::getInstance();
+  for (auto it = L->m_typesById.begin(); it != L->m_typesById.end();) {
+    if (g_baseKeys.count(it->first)) { ++it; continue; }
+    const DataType* dt = it->second;
+    L->m_cleanupTypes.remove(dt);
+    delete dt;
+    it = L->m_typesById.erase(it);
+  }
+}
+
 // runs the checks under both readings of the sub-byte time type; findings only if both are inconsistent
+static bool g_refLayout = false;
 static vector<Finding> checkSeq(const Seq& s, bool deep, bool* overlap, string* reading, bool light = false) {
   bool hasSub = false;
   for (auto& f : s) if (f.t == g_subByte) hasSub = true;
   g_subByteAsBits = false;
+  resetTypeCache();
   vector<Finding> a;
-  { SeqCheck sc(s, deep, light); sc.run(); a = sc.out; if (overlap) *overlap = sc.overlapDefs; }
+  { SeqCheck sc(s, deep, light); sc.refLayout = g_refLayout; sc.run(); a = sc.out; if (overlap) *overlap = sc.overlapDefs; }
   if (reading) *reading = "";
   if (a.empty() || !hasSub) return a;
   g_subByteAsBits = true;
+  resetTypeCache();
   vector<Finding> b;
-  { SeqCheck sc(s, deep, light); sc.run(); b = sc.out; }
+  { SeqCheck sc(s, deep, light); sc.refLayout = g_refLayout; sc.run(); b = sc.out; }
   g_subByteAsBits = false;
   if (b.empty()) { R.count("subbyte_type_consistent_only_as_bit_field"); return b; }
   // inconsistent under both readings: report the bit-field reading (the one the type's bit count suggests)
@@ -728,7 +790,13 @@ static int replay(const string& c) {
     g_subByteAsBits = reading == 1;
     if (hasSub) printf("--- reading TTH as %s\n", reading ? "6-bit field that may share its byte" : "full-byte field");
     SeqCheck sc(s, true, m["light"] == "1");
-    if (!sc.run()) { printf("definition refused\nOK\n"); return 0; }
+    sc.refLayout = m["light"] == "1" && s.size() > 6;
+    if (!sc.run()) {
+      printf("definition refused by DataField::create\n");
+      for (auto& f : sc.out) { printf("VIOLATES rule=%s: %s\n", f.rule.c_str(), f.detail.c_str()); if (want.empty() || f.rule == want) hit = true; }
+      if (reading == 0 && hasSub) continue;
+      return hit ? 1 : 0;
+    }
     for (size_t i = 0; i < s.size() && i < sc.owned.size(); i++) {
       printf("field %zu %s part %c owns:", i, FTof(s[i].t).type, s[i].part);
       if (FTof(s[i].t).ign) printf(" (ignored)");
@@ -748,6 +816,7 @@ int main(int argc, char** argv) {
   vp::Args A = vp::parseArgs(argc, argv);
   initAlphabet();
   g_templates = new DataFieldTemplates();
+  for (auto it = DataTypeList::getInstance()->begin(); it != DataTypeList::getInstance()->end(); ++it) g_baseKeys.insert(it->first);
   for (size_t t = 0; t < g_alpha.size(); t++) if (g_alpha[t].var) g_varIndex = (int)t;
   if (A.replay) return replay(A.replayCase);
   R.setDeadline(A);
@@ -756,11 +825,13 @@ int main(int argc, char** argv) {
   for (size_t t = 0; t < g_alpha.size(); t++) {
     if (g_alpha[t].ign) continue;
     Seq s = {FieldDef{(int)t, 'm'}};
+    resetTypeCache();
     SeqCheck sc(s, false);
     sc.run();
-    for (auto& f : sc.out) if (f.rule == "owned-bytes-count" || f.rule == "field-owns-no-bits" || f.rule == "encode-fails") {
-      fprintf(stderr, "value set of %s does not exercise the type: %s %s\n", g_alpha[t].type, f.rule.c_str(), f.detail.c_str());
-      return 3;
+    for (auto& f : sc.out) if (f.rule == "owned-bytes-count" || f.rule == "field-owns-no-bits" || f.rule == "encode-fails" || f.rule == "config-rejected") {
+      // on the unchanged tree every value set exercises its type (checked when the alphabet was written), so a
+      // failure here is caused by the implementation under test: reported as violation, partition 0 only
+      if (A.part == 0) R.violation("C10/single-field/" + f.rule + "/" + string(1, g_alpha[t].kind), string("single field ") + g_alpha[t].type + ": " + f.detail, "k=seq;f=" + seqStr(s) + ";rule=" + f.rule);
     }
   }
   std::set<string> reduced = {"UCH", "UIN", "D2C", "BCD", "BI0", "BI0:3", "BI3:2", "BI7", "IGN:1", "STR:2", "HDY", "TTH", "STR:*", "UCH/10", "EXP"};
@@ -787,8 +858,13 @@ int main(int argc, char** argv) {
       // sequences of length 4 only over the reduced alphabet
       for (auto& f : cur) if (!reduced.count(g_alpha[f.t].type)) return;
     }
+    bool hasExt = false;
+    for (auto& f : cur) if (g_alpha[f.t].ext) hasExt = true;
+    int extMax = A.thorough() ? 3 : 2;
+    if (hasExt && (int)cur.size() >= extMax) return;
     for (size_t t = 0; t < g_alpha.size(); t++) for (char p : {'m', 's'}) {
       if (cur.size() == 3 && !reduced.count(g_alpha[t].type)) continue;
+      if (g_alpha[t].ext && (int)cur.size() >= extMax) continue;
       cur.push_back(FieldDef{(int)t, p});
       rec();
       cur.pop_back();
@@ -837,6 +913,20 @@ int main(int argc, char** argv) {
         sufRec(0);
       }
     }
+    // Long family (both tiers): 10 x UCH ; X ; UCH for every non-variable type X, master and slave part: more
+    // than 10 fields, so that two-digit JSON keys and the stream state left by X in front of a later field occur
+    g_refLayout = true;
+    int uch = -1;
+    for (size_t t = 0; t < g_alpha.size(); t++) if (string(g_alpha[t].type) == "UCH") uch = (int)t;
+    for (char part : {'m', 's'}) for (size_t t = 0; t < g_alpha.size(); t++) {
+      if (g_alpha[t].var || stop) continue;
+      Seq q;
+      for (int k = 0; k < 10; k++) q.push_back(FieldDef{uch, part});
+      q.push_back(FieldDef{(int)t, part});
+      q.push_back(FieldDef{uch, part});
+      checkFamily(q);
+    }
+    g_refLayout = false;
     if (A.part == 0) R.sample("barrier family e.g. BI0:3.m,UIN.m,BI0:3.m,BI3:2.m: bytes behind the full-byte field must equal the encoding of the trailing fields alone");
   }
   R.write(A.out);
